@@ -362,10 +362,11 @@ class CSSSerializer:
         dependent on prefs setting defaultPropertyName and
         keepAllProperties
         """
+        # (characters which came as unicode escapes are escaped again)
         if self.prefs.defaultPropertyName and not self.prefs.keepAllProperties:
-            return property.name
+            return helper.ident(property.name)
         else:
-            return actual
+            return helper.ident(actual)
 
     def _linenumnbers(self, text):
         if self.prefs.lineNumbers and self.prefs.lineSeparator:
@@ -561,6 +562,8 @@ class CSSSerializer:
                 type_, val = item.type, item.value
                 if 'namespaceURI' == type_:
                     out.append(val, 'STRING')
+                elif 'prefix' == type_:
+                    out.append(val, 'IDENT')
                 else:
                     out.append(val, type_)
 
@@ -866,6 +869,9 @@ class CSSSerializer:
                 if isinstance(val, tuple):
                     # namespaceURI|name (element or attribute)
                     namespaceURI, name = val
+                    if name != '*':
+                        # characters which came as unicode escapes
+                        name = helper.ident(name)
                     if DEFAULTURI == namespaceURI or (
                         not DEFAULTURI and namespaceURI is None
                     ):
@@ -880,8 +886,20 @@ class CSSSerializer:
                                 )
                             except IndexError:
                                 prefix = ''
+                            else:
+                                prefix = helper.ident(prefix)
 
                         out.append(f'{prefix}|{name}', type_, space=False)
+                elif type_ in ('attribute-selector', 'attribute-value') and isinstance(
+                    val, str
+                ):
+                    out.append(helper.ident(val), type_, space=False)
+                elif type_ == 'class' and val.startswith('.'):
+                    out.append('.' + helper.ident(val[1:]), type_, space=False)
+                elif type_ == 'id' and val.startswith('#'):
+                    out.append(
+                        '#' + helper.ident(val[1:], hash_=True), type_, space=False
+                    )
                 else:
                     out.append(val, type_, space=False, keepS=True)
 
